@@ -821,6 +821,9 @@ func (e *Exec) siteAsserts(ins ssa.Instruction, callee string, args []Value, st 
 		if sa.Ordinal != 0 && sa.Ordinal != ord {
 			continue
 		}
+		root.counts["fired:"+ck]++
+		if false {
+		}
 		env := e.newEnv(st, e.entry)
 		env.args = args
 		env.block = ins.Block()
